@@ -316,7 +316,12 @@ func init() {
 							return true
 						})
 						if sig && eq {
-							cmps = append(cmps, callee.Name)
+							if whole, why := comparesWholeSignature(r, callee); whole {
+								cmps = append(cmps, callee.Name)
+							} else {
+								r.Fail("util.PreExecBlock: "+callee.Name+" compares the whole signature (type, public key and signature bytes)", r.W.Pos(callee.Node().Pos()),
+									why+": a block transaction that differs from the pooled, verified one in an uncompared signature field skips verification")
+							}
 						}
 						return true
 					})
@@ -366,6 +371,47 @@ func init() {
 					},
 					Calls: []core.CallGuard{isTrue("sig-ok", "types.VerifySignature")},
 				}, Sink: core.CallSink("util.ExecTx", "util.ExecKVMemSet"), Need: []Fact{"sig-ok"}, Min: 2}.Check(r)
+			}),
+			rule("R28f", "start-up refills the duplicate window with the same extent it is configured with", 2, func(r *Run) {
+				// writer/reader agreement: the window constants given to newTxHashCache are the ones
+				// that bound the refill loop feeding txHeightCache.Add at start-up
+				f := r.Fn(bcm + "InitCache")
+				if f == nil {
+					return
+				}
+				c := f.Ctx()
+				consts := []string{"types.HighAllowPackHeight", "types.LowAllowPackHeight"}
+				ok := false
+				for _, lp := range core.LoopsIn(f) {
+					fs, isFor := lp.(*ast.ForStmt)
+					if !isFor || fs.Init == nil {
+						continue
+					}
+					feeds := false
+					ast.Inspect(fs.Body, func(x ast.Node) bool {
+						if call, isCall := x.(*ast.CallExpr); isCall && core.ShortName(core.Callee(c.Info, call)) == "blockchain.txHeightCacheType.Add" {
+							feeds = true
+						}
+						return true
+					})
+					if !feeds {
+						continue
+					}
+					as, isAs := fs.Init.(*ast.AssignStmt)
+					if isAs && len(as.Rhs) == 1 && core.Mentions(consts...)(c, as.Rhs[0]) && core.Mentions("param:0")(c, as.Rhs[0]) {
+						if op, isCmp := core.CmpAtom(c, fs.Cond, core.AnyExpr, core.IsObj("param:0")); isCmp && op == token.LEQ {
+							ok = true
+						}
+					}
+				}
+				label := "blockchain.(*BlockChain).InitCache refills the duplicate cache from the whole Low+High pack window up to the tip"
+				if ok {
+					r.OK(label, r.W.Pos(f.Node().Pos()), "refill loop starts at tip-(High+Low)+… and runs to the tip inclusive")
+				} else {
+					r.Fail(label, r.W.Pos(f.Node().Pos()), "the loop that feeds txHeightCache.Add is not bounded by HighAllowPackHeight and LowAllowPackHeight: after a restart a transaction inside the validity window but outside the refilled range is no longer seen as a duplicate")
+				}
+				core.CallArgs{Fn: bcm + "InitCache", Callee: []string{"blockchain.newTxHashCache"}, What: "the cache is sized by the same window constants",
+					Args: map[int]core.ExprPred{1: core.IsObj("types.HighAllowPackHeight"), 2: core.IsObj("types.LowAllowPackHeight")}, Min: 1}.Check(r)
 			}),
 			rule("R28e", "the height-window duplicate cache is only updated from connect/disconnect/startup", 3, func(r *Run) {
 				core.WhoMayCall{Targets: []string{"blockchain.txHeightCacheType.Add", "blockchain.txHeightCacheType.Del"},
